@@ -143,6 +143,9 @@ func (ck *Check) panicSites(rule func(n int) string, fns []*ssa.Function) {
 					if strings.HasPrefix(b.Comment, "select") {
 						continue // go/ssa's unreachable arm of a blocking select
 					}
+					if b.Comment == "yield-invalid" || strings.HasPrefix(b.Comment, "rangefunc.") {
+						continue // go/ssa's lowering of range-over-func: the iterator-protocol checks of the runtime, not a panic statement
+					}
 					counts["panic"]++
 					ck.fail(rule(3), mkKey("panic"), ck.P.instrPos(x), funcID(fn), "no explicit panic on scan paths", x.String(), "")
 				}
@@ -512,7 +515,7 @@ func (ck *Check) stopCensus(rule string, fns []*ssa.Function) {
 			n++
 			// named by role where the function has one, so that a rename is not a new finding
 			where := funcID(fn)
-			if fn == a.AwsTerminateOrphans {
+			if ck.ownedBy(fn, a.AwsTerminateOrphans, 0) {
 				where = "<orphan-terminator>"
 			}
 			ck.fail(rule, fmt.Sprintf("exit:%s/%s", where, f.Name()), ck.P.instrPos(ci), funcID(fn), "only the documented not-in-group condition stops the controller from inside a scan", f.String(), "a process exit is reachable from RunOnce: "+strings.Join(ck.P.chain(a.RunOnce, fn), " → "))
@@ -896,6 +899,25 @@ func (ck *Check) nonNilWhenOK(f *ssa.Function, idx int) bool {
 		if imp, _, _ := Entails(pc, Not(cmpFormula(token.EQL, et, nilT))); imp {
 			continue
 		}
+		// the value comes out of a helper (or a merge) case by case: each case either yields a fresh
+		// object or cannot occur together with a nil error
+		{
+			cases := ck.valueCases(ctx, pc, v, 0)
+			okCases := len(cases) > 1
+			errIsNil := cmpFormula(token.EQL, et, nilT)
+			for _, c := range cases {
+				switch {
+				case c.term.Kind == "alloc" || (c.term.Kind == "unop" && c.term.Name == "&"):
+				default:
+					if sat, err := Satisfiable(And(c.guard, errIsNil)); err != nil || sat {
+						okCases = false
+					}
+				}
+			}
+			if okCases {
+				continue
+			}
+		}
 		res = false
 	}
 	nonNilCache[key] = res
@@ -1130,4 +1152,33 @@ func (ck *Check) alwaysNonNil(v ssa.Value, depth int) bool {
 		return n > 0
 	}
 	return false
+}
+
+// isYieldOf: y is go/ssa's synthetic body function of a range-over-func loop of fn.
+func isYieldOf(y, fn *ssa.Function) bool {
+	return y != nil && y.Synthetic == "range-over-func yield" && y.Parent() == fn
+}
+
+// ownedBy: fn is owner itself, the body of one of its range-over-func loops, or a private helper
+// all of whose callers are (depth ≤ 2).
+func (ck *Check) ownedBy(fn, owner *ssa.Function, depth int) bool {
+	if fn == nil || owner == nil {
+		return false
+	}
+	if fn == owner || isYieldOf(fn, owner) {
+		return true
+	}
+	if depth >= 2 || fn.Object() == nil || fn.Object().Exported() {
+		return false
+	}
+	cs := ck.P.callers[fn]
+	if len(cs) == 0 {
+		return false
+	}
+	for _, c := range cs {
+		if len(callsTo(c, fn)) == 0 || !ck.ownedBy(c, owner, depth+1) {
+			return false
+		}
+	}
+	return true
 }
